@@ -202,7 +202,7 @@ func (a *Actor) rec(kind string, from gen.PID, msg any, reason error, start int6
 
 func (a *Actor) Init(args ...any) (err error) {
 	st := a.g.enter(a.Cfg.Probe, a.Cfg.Label, "init")
-	defer func() { a.rec("init", gen.PID{}, nil, err, st) }()
+	defer func() { a.rec("init", a.Parent(), nil, err, st) }() // From = parent pid
 	a.SetTrapExit(a.Cfg.Trap)
 	a.SetSplitHandle(a.Cfg.Split)
 	spin(a.Cfg.SpinNs)
